@@ -713,6 +713,10 @@ func (h *handler1) handleSubscribe(ctx context.Context, snSubscribe *snPkts1.Sub
 			// is just registering at the client.
 			topicID = pendingID.(uint16)
 			h.registeredTopics.Store(topicID, topic)
+			// The client has not accepted this TopicID yet (it would
+			// be registered already): if the broker refuses the
+			// subscription, the registration must not stay.
+			topicIDIsNew = true
 		} else if !hasWildcard(topic) {
 			var err error
 			topicID, err = h.newTopicID()
